@@ -15,6 +15,10 @@ def must_raise(sig, what, f, *a, **kw):
     st, v = call(f, *a, **kw)
     if st == "ok":
         raise Violation(sig, "%s returned %s instead of raising" % (what, _r(v)))
+    # a request that was refused is refused again when it is repeated (a refusal must not leave usable state behind)
+    st2, v2 = call(f, *a, **kw)
+    if st2 == "ok":
+        raise Violation(sig + "/accepted-on-retry", "%s was refused once (%r) and returned %s when repeated" % (what, v, _r(v2)))
     return v
 
 
